@@ -34,6 +34,9 @@ var preludeKinds = []struct{ name, src string }{
 	{"crlf-in-code", "{{ 1 +\r\n 2 }}\r\n"},
 	{"utf8", "é中\n😀 {{ \"é\n中\" }}\n"},
 	{"no-newline-tokens", "{{ 1 }}{{ 2 }} text @if(true)x@end\n"},
+	// a carriage return that is not part of a CRLF pair is not a line end
+	{"stray-carriage-returns", "a\rb {{ 1 +\r 2 }} {{ 'x\ry' }}{{-- c\rd --}}\r@if(\rtrue)y@end\r\n"},
+	{"carriage-return-before-crlf", "x\r\r\ny\r\n"},
 }
 
 type faultKind struct {
@@ -42,6 +45,11 @@ type faultKind struct {
 	runtime bool   // needs evaluation to reach it
 	offset  int    // newlines inside the construct before the offending token
 }
+
+// faultSlack: the failing operator sits on a later line than the end of its left operand; any line
+// from the end of the left operand (offset-slack) to the operator (offset) names the construct
+var faultSlack = map[string]int{"mistyped-operand-at-end-of-chain": 1, "division-by-zero-after-group": 1, "modulo-by-zero-after-chain": 1,
+	"mistyped-operand-in-middle-of-chain": 1, "comparison-after-chain": 1}
 
 var lineFaults = []faultKind{
 	{"undefined-identifier", "{{ nope }}", true, 0},
@@ -82,6 +90,12 @@ var lineFaults = []faultKind{
 	{"unknown-operator-multiline-string", "{{ \"x\ny\" * \"z\" }}", true, 1},
 	{"unknown-property-multiline-key", "{{ {a: 1}['first\nsecond'] }}", true, 1},
 	{"unknown-function-on-multiline-string", "{{ \"p\nq\".nofn() }}", true, 1},
+	// chains of operators written over several lines: the failing operator's own line counts
+	{"mistyped-operand-at-end-of-chain", "{{ \"a\"\n + \"b\"\n + 1 }}", true, 2},
+	{"division-by-zero-after-group", "{{ (4\n+ 2)\n/ 0 }}", true, 2},
+	{"modulo-by-zero-after-chain", "{{ 1\n* 2\n* 3\n% 0 }}", true, 3},
+	{"mistyped-operand-in-middle-of-chain", "{{ 1\n+ \"a\"\n+ 2 }}", true, 1},
+	{"comparison-after-chain", "{{ 1\n+ 2\n< \"b\" }}", true, 2},
 	// an unclosed string runs to the end of the input: its token ends on the line of the last byte
 	{"unclosed-string-to-end-of-input", "{{ \"never closed", false, -1},
 	{"unclosed-single-quoted-string-to-end-of-input", "@if('never closed", false, -1},
@@ -150,7 +164,7 @@ func init() {
 					return
 				}
 				line, _, ok := ErrLinePath(got.Err)
-				if !ok || line != want {
+				if !ok || line > want || line < want-faultSlack[f.name] {
 					c.Violation("line:"+f.name, fmt.Sprintf("%s on line %d was reported on line %d: %s", f.name, want, line, ErrMessage(got.Err)), map[string]any{"source": src, "line": want})
 				}
 			}
@@ -210,7 +224,7 @@ func lineTreeCase(c *core.Ctx, i int) {
 		return sb.String()
 	}
 	ext := []string{".tw", ".tw.html", ".html"}[(i/8)%3]
-	dirSpelled := []string{"c13tree", "./c13tree/", "c13tree/nested/views", "x13/../c13tree"}[(i/24)%4]
+	dirSpelled := []string{"c13tree", "./c13tree/", "c13tree/nested/views", "x13/../c13tree", "c13tree/50%d-off", "c13tree/100%done/%s"}[(i/24)%6]
 	files := map[string]string{
 		"layouts/main.tw":     "<html>\n@reserve(\"title\")\n<body>\n@reserve(\"body\")\n</body>\n",
 		"components/card.tw":  "<card>\n{{ t }}\n@slot\n</card>\n",
@@ -278,7 +292,7 @@ func lineTreeCase(c *core.Ctx, i int) {
 		f = v.faults[r.Intn(len(v.faults))] // faults that run to the end of input do not fit the tree builders
 	}
 	// the page may be nested and its name may end in the text of the extension
-	pageName := []string{"page", "sub/deep/page", "changelog.tw", "mail/digest.tw.html"}[(i/96)%4]
+	pageName := []string{"page", "sub/deep/page", "changelog.tw", "mail/digest.tw.html", "sale/20%off", "%v"}[(i/144)%6]
 	pre := prelude()
 	content, line := v.content(f.src, pre)
 	line += f.offset
@@ -322,7 +336,7 @@ func lineTreeCase(c *core.Ctx, i int) {
 			return
 		}
 		gl, gp, ok := ErrLinePath(err)
-		if !ok || gl != line {
+		if !ok || gl > line || gl < line-faultSlack[f.name] {
 			c.Violation("tree-line:"+v.name+":"+f.name, fmt.Sprintf("%s on line %d of %s was reported on line %d: %s", f.name, line, v.file, gl, err.Error()), desc)
 		}
 		if gp != wantPath {
@@ -357,7 +371,7 @@ func lineTreeCase(c *core.Ctx, i int) {
 		c.Violation("tree-line:"+v.name+":no-error", fmt.Sprintf("the injected %s was not reported at render (output %q)", f.name, clipS(got.Out, 100)), desc)
 		return
 	}
-	if int(fe.Line()) != line {
+	if int(fe.Line()) > line || int(fe.Line()) < line-faultSlack[f.name] {
 		c.Violation("tree-line:"+v.name+":"+f.name, fmt.Sprintf("%s on line %d of %s was reported on line %d: %s", f.name, line, v.file, fe.Line(), fe.Message()), desc)
 	}
 	if fe.Filepath() != wantPath {
